@@ -1080,7 +1080,7 @@ class Context(object):
         newclass = type(name, (plasTeX.NewCommand,),
                        {'nargs':nargs, 'opt':opt, 'definition':definition})
 
-        self.addGlobal(name, newclass)
+        self.addLocal(name, newclass)
 
     def newenvironment(self, name, nargs=0, def_before=None, def_after=None, opt=None):
         """
